@@ -64,6 +64,10 @@ def custom_or(left: Callable, right: Callable) -> Callable:
     return decorated
 
 
+class UnsupportedExpression(ValueError):
+    """The expression is valid Python, but uses something outside the supported grammar."""
+
+
 def build_constant(constant) -> Callable:
     def decorated(*args, **kwargs):
         return constant
@@ -102,7 +106,11 @@ def build_expression(node, variable_hook, operator_mapping):  # noqa: C901
         left_expr = build_expression(node.left, variable_hook, operator_mapping)
         for right_op, right in zip(node.ops, node.comparators):  # noqa: B905  # strict=True requires 3.10+
             right_expr = build_expression(right, variable_hook, operator_mapping)
-            operator_fn = operator_mapping[type(right_op)]
+            operator_fn = operator_mapping.get(type(right_op))
+            if operator_fn is None:
+                raise UnsupportedExpression(
+                    f"Unsupported expression structure: {right_op.__class__.__name__}"
+                )
             expression = operator_fn(left_expr, right_expr)
             left_expr = right_expr
             expressions.append(expression)
@@ -127,7 +135,9 @@ def build_expression(node, variable_hook, operator_mapping):  # noqa: C901
     elif hasattr(ast, "Num") and isinstance(node, ast.Num):  # pragma: no cover | python3.7
         return build_constant(node.n)
     else:
-        raise ValueError(f"Unsupported expression structure: {node.__class__.__name__}")
+        raise UnsupportedExpression(
+            f"Unsupported expression structure: {node.__class__.__name__}"
+        )
 
 
 def parse_boolean_expr(expr, variable_hook, operator_mapping):
